@@ -14,6 +14,10 @@ import (
 type leafOpts struct {
 	throughAppend bool // append(a, b...) derives from a and b
 	throughFields bool // load of x.f (FieldAddr on a local alloc struct) -> stores into that field
+	// wrapper: calls whose result is a re-packaging of their arguments (sign, marshal, encode): provenance continues into the arguments
+	wrapper func(co *types.Func) bool
+	// expandAllocs: a local struct/array object stands for everything stored into it
+	expandAllocs bool
 }
 
 func leavesOf(v ssa.Value, o leafOpts) []ssa.Value {
@@ -216,6 +220,60 @@ func (p *Program) provenance(v ssa.Value, o leafOpts, classify func(leaf ssa.Val
 				roots = append(roots, provRoot{leaf, fn, provUndecided, "depth bound reached"})
 				continue
 			}
+			if o.wrapper != nil {
+				var call *ssa.Call
+				switch x := leaf.(type) {
+				case *ssa.Extract:
+					call, _ = x.Tuple.(*ssa.Call)
+				case *ssa.Call:
+					call = x
+				}
+				if call != nil {
+					if co := calleeOfCommon(call.Common()); co != nil && o.wrapper(co) {
+						if call.Common().IsInvoke() {
+							// receiver is the wrapper object, not data
+						}
+						for _, a := range call.Common().Args {
+							walk(a, depth+1)
+						}
+						continue
+					}
+				}
+			}
+			if al, ok := leaf.(*ssa.Alloc); ok && o.expandAllocs {
+				n := 0
+				var scan func(addr ssa.Value, d int)
+				scan = func(addr ssa.Value, d int) {
+					if d > 6 {
+						return
+					}
+					refs := addr.Referrers()
+					if refs == nil {
+						return
+					}
+					for _, rf := range *refs {
+						switch x := rf.(type) {
+						case *ssa.Store:
+							if x.Addr == addr {
+								n++
+								walk(x.Val, depth+1)
+							}
+						case *ssa.FieldAddr:
+							if x.X == addr {
+								scan(x, d+1)
+							}
+						case *ssa.IndexAddr:
+							if x.X == addr {
+								scan(x, d+1)
+							}
+						}
+					}
+				}
+				scan(al, 0)
+				if n > 0 {
+					continue
+				}
+			}
 			switch x := leaf.(type) {
 			case *ssa.Parameter:
 				f := x.Parent()
@@ -286,9 +344,12 @@ func (p *Program) provenance(v ssa.Value, o leafOpts, classify func(leaf ssa.Val
 						callees = []*ssa.Function{sc}
 					} else {
 						callees = p.siteCallees[call]
+						if len(callees) == 0 && call.Common().IsInvoke() {
+							callees = p.implementersOf(call.Common().Method)
+						}
 					}
 					for _, cal := range callees {
-						if cal.Blocks == nil || !isAcraPath(fnPkgPath(cal)) {
+						if cal.Blocks == nil || (!isAcraPath(fnPkgPath(cal)) && cal.Synthetic == "") {
 							continue
 						}
 						for _, ret := range returnsOf(cal) {
@@ -395,5 +456,28 @@ func backClosure(v ssa.Value) map[ssa.Value]bool {
 		}
 	}
 	walk(v)
+	return out
+}
+
+// implementersOf: CHA fallback: every acra method with a body that has the interface method's name and whose
+// receiver type implements the interface the method belongs to.
+func (p *Program) implementersOf(m *types.Func) []*ssa.Function {
+	sig, _ := m.Type().(*types.Signature)
+	if sig == nil || sig.Recv() == nil {
+		return nil
+	}
+	iface, _ := sig.Recv().Type().Underlying().(*types.Interface)
+	if iface == nil {
+		return nil
+	}
+	var out []*ssa.Function
+	for _, fn := range p.srcFns {
+		if fn.Name() != m.Name() || fn.Signature.Recv() == nil || fn.Synthetic != "" {
+			continue
+		}
+		if types.Implements(fn.Signature.Recv().Type(), iface) {
+			out = append(out, fn)
+		}
+	}
 	return out
 }
